@@ -451,6 +451,34 @@ def _attacker_events(rng, node, res, tr):
                     continue
                 res.violation(ID, "attacker:hmac-with-public-key-accepted", "a verifier holding a %s key accepted a %s MAC keyed with the %s encoding of its public key" % (
                     alg, halg, name), {"attacker": "hmac", "alg": alg, "enc": name, "halg": halg, "seed": rng.label})
+            # the same forgery in the JSON serializations, with one and with several (all forged) signatures
+            hk = RKey("oct", k=secret)
+            for form, n_sig in (("flat", 1), ("general", 1), ("general", 2), ("general", 3)):
+                hdrs = [rjws.compact_json({"alg": h_}) for h_ in ("HS256", "HS512", "HS384")[:n_sig]]
+                if form == "flat":
+                    tok = rjws.make_flattened(hdrs[0], None, b"forged", "HS256", hk)
+                else:
+                    tok = rjws.make_general(b"forged", [(h_, None, a_, hk) for h_, a_ in zip(hdrs, ("HS256", "HS512", "HS384"))])
+                res.case("algconf", alg, name, form, n_sig)
+                res.fired("attacker:hmac-with-public-key")
+                for kform in ("key", "set", "callable"):
+                    jk = jose(base, False)
+                    if kform == "set":
+                        from joserfc.jwk import KeySet
+                        jk = KeySet([jk])
+                    elif kform == "callable":
+                        jk = (lambda o, _k=jk: _k)
+                    try:
+                        with warnings.catch_warnings():
+                            warnings.simplefilter("ignore")
+                            jws.deserialize_json(tok, jk, algorithms=list(rjws.ALL_ALGS))
+                    except Exception:
+                        continue
+                    res.violation(ID, "attacker:hmac-with-public-key-accepted:json", "a verifier holding a %s key (%s) accepted a %s JSON JWS with %d HMAC signature(s) keyed "
+                                  "with the %s encoding of its public key" % (alg, kform, form, n_sig, name),
+                                  {"attacker": "hmac", "alg": alg, "enc": name, "halg": "json", "seed": rng.label})
+    for v in op_history_problems(node, rng.sub("op-history"), res):
+        res.violation(ID, v[0], v[1], {"attacker": "op-history", "seed": rng.label})
     texts = []
     for alg in ("RS256", "ES256", "EdDSA", "ES384"):
         base = node.jws_base[alg]
@@ -492,8 +520,67 @@ def _attacker_events(rng, node, res, tr):
                               {"attacker": "unsafe-import", "name": name, "seed": rng.label})
 
 
+def op_history_problems(node, rng, res=None) -> list:
+    """one key *object* with declared key_ops: an operation it permits first, then one it does not - the gate holds on every call"""
+    from joserfc import jws, jwe
+    from joserfc.jwk import OctKey, RSAKey
+    out = []
+    oct16 = rng.bytes_(16)
+    rsa = K.make_rsa(rng, 2048)
+    reg = JW.registry()
+    peer_kw = rjwe.build("compact", {"alg": "A128KW", "enc": "A128GCM"}, b"p", [rjwe.Rcpt("A128KW", RKey("oct", k=oct16))], rng.sub("kw")).ser
+    peer_oaep = rjwe.build("compact", {"alg": "RSA-OAEP", "enc": "A128GCM"}, b"p", [rjwe.Rcpt("RSA-OAEP", rsa.public())], rng.sub("oaep")).ser
+    hs_tok = rjws.make_compact(rjws.compact_json({"alg": "HS256"}), b"m", "HS256", RKey("oct", k=oct16))
+    rs_tok = rjws.make_compact(rjws.compact_json({"alg": "RS256"}), b"m", "RS256", rsa)
+    A = list(rjws.ALL_ALGS)
+    scenarios = [
+        ("oct[sign]: HS256 sign, then A128KW unwrap", lambda: OctKey.import_key(oct16, {"key_ops": ["sign"]}),
+         lambda k: jws.serialize_compact({"alg": "HS256"}, b"m", k, algorithms=A), lambda k: jwe.decrypt_compact(peer_kw, k, registry=reg)),
+        ("oct[sign,verify]: HS256 verify, then A128KW wrap", lambda: OctKey.import_key(oct16, {"key_ops": ["sign", "verify"]}),
+         lambda k: jws.deserialize_compact(hs_tok, k, algorithms=A), lambda k: jwe.encrypt_compact({"alg": "A128KW", "enc": "A128GCM"}, b"p", k, registry=reg)),
+        ("oct[wrapKey,unwrapKey]: A128KW unwrap, then HS256 sign", lambda: OctKey.import_key(oct16, {"key_ops": ["wrapKey", "unwrapKey"]}),
+         lambda k: jwe.decrypt_compact(peer_kw, k, registry=reg), lambda k: jws.serialize_compact({"alg": "HS256"}, b"m", k, algorithms=A)),
+        ("oct[verify]: HS256 verify, then HS256 sign", lambda: OctKey.import_key(oct16, {"key_ops": ["verify"]}),
+         lambda k: jws.deserialize_compact(hs_tok, k, algorithms=A), lambda k: jws.serialize_compact({"alg": "HS256"}, b"m", k, algorithms=A)),
+        ("RSA public[verify]: RS256 verify, then RSA-OAEP encrypt", lambda: RSAKey(rsa.pub, rsa.pub, {"key_ops": ["verify"]}),
+         lambda k: jws.deserialize_compact(rs_tok, k, algorithms=A), lambda k: jwe.encrypt_compact({"alg": "RSA-OAEP", "enc": "A128GCM"}, b"p", k, registry=reg)),
+        ("RSA private[sign,verify]: RS256 sign, then RSA-OAEP decrypt", lambda: RSAKey(rsa.priv, rsa.priv, {"key_ops": ["sign", "verify"]}),
+         lambda k: jws.serialize_compact({"alg": "RS256"}, b"m", k, algorithms=A), lambda k: jwe.decrypt_compact(peer_oaep, k, registry=reg)),
+        ("RSA private[decrypt]: RSA-OAEP decrypt, then RS256 sign", lambda: RSAKey(rsa.priv, rsa.priv, {"key_ops": ["decrypt"]}),
+         lambda k: jwe.decrypt_compact(peer_oaep, k, registry=reg), lambda k: jws.serialize_compact({"alg": "RS256"}, b"m", k, algorithms=A)),
+    ]
+    for name, mk, permitted, forbidden in scenarios:
+        if res is not None:
+            res.case("op-history", name)
+            res.fired("key-object-history:permitted-then-forbidden")
+        with warnings.catch_warnings():
+            warnings.simplefilter("ignore")
+            try:
+                fresh_refused = False
+                try:
+                    forbidden(mk())
+                except Exception:
+                    fresh_refused = True
+                key = mk()
+                permitted(key)
+            except Exception as e:
+                out.append(("op-history:permitted-operation-refused", "%s: the permitted first operation failed: %s: %s" % (name, type(e).__name__, str(e)[:80])))
+                continue
+            if not fresh_refused:
+                out.append(("op-history:forbidden-on-fresh-key-accepted", "%s: a fresh key performed the forbidden operation" % name))
+                continue
+            try:
+                forbidden(key)
+            except Exception:
+                continue
+            out.append(("op-history:forbidden-after-permitted-accepted", "%s: the forbidden operation succeeded on the key object that had just performed a permitted one" % name))
+    return out
+
+
 def replay(repro: dict):
     out = []
+    if repro.get("attacker") == "op-history":
+        return op_history_problems(Node(Rng(repro["seed"] + "/node")), Rng(repro["seed"]).sub("op-history"))
     if "cell" in repro:
         rng = Rng(repro["seed"])
         node = Node(rng.sub("node"))
